@@ -41,6 +41,7 @@ func init() {
 				c02r2(c)
 				setupSessionFromPin(c)
 				pinFormatted(c)
+				polarityEverywhere(c, "C02")
 			}},
 			{ID: "C02-R3", Title: "SaveEntity is dominated by AEAD-open-ok under the session key and signature-ok", Decides: "only a correctly authenticated and signed key-exchange stores", Floor: 4, Run: c02r3},
 			{ID: "C02-R4", Title: "stored name and key are the signed name and key", Decides: "exactly that name and key", Floor: 3, Run: func(c *core.Ctx) { c02r4(c); entityCtorPasses(c) }},
